@@ -190,6 +190,19 @@ DEFAULT_TRANSPARENT = {
 }
 
 
+def _alternatives(e):
+    """expressions one of which IS the value of e (conditional expressions,
+    boolean operators, getattr defaults)"""
+    if isinstance(e, ast.IfExp):
+        return _alternatives(e.body) + _alternatives(e.orelse)
+    if isinstance(e, ast.BoolOp):
+        return [x for v in e.values for x in _alternatives(v)]
+    if isinstance(e, ast.Call) and isinstance(e.func, ast.Name) and \
+            e.func.id == "getattr" and len(e.args) == 3:
+        return [e.args[2]]
+    return [e]
+
+
 class Origins(object):
     def __init__(self, cfg, rd=None, transparent=None, max_depth=40,
                  follow_new_helpers=True, _level=0):
@@ -288,8 +301,20 @@ class Origins(object):
             rec(e.left)
             rec(e.right)
         elif isinstance(e, ast.BoolOp):
-            for v in e.values:
-                rec(v)
+            # `a or b` never evaluates to a falsy alternative of a (nor
+            # `a and b` to a truthy one): those constants are not origins
+            is_or = isinstance(e.op, ast.Or)
+            for i, v in enumerate(e.values):
+                if i == len(e.values) - 1:
+                    rec(v)
+                    continue
+                sub = set()
+                self._expand(v, nid, sub, seen, env, depth + 1)
+                drop = {id(c) for c in _alternatives(v)
+                        if isinstance(c, ast.Constant) and
+                        bool(c.value) != is_or}
+                out |= {a for a in sub if not (a.kind == "const" and
+                                               id(a.ast) in drop)}
         elif isinstance(e, ast.UnaryOp):
             rec(e.operand)
         elif isinstance(e, ast.IfExp):
@@ -345,6 +370,16 @@ class Origins(object):
                     rec(a)
                 for kw in c.keywords:
                     rec(kw.value)
+            return
+        if name == "getattr" and isinstance(f, ast.Name) and \
+                len(c.args) in (2, 3) and isinstance(c.args[1], ast.Constant) \
+                and isinstance(c.args[1].value, str) and \
+                c.args[1].value.isidentifier():
+            # getattr(x, "name"[, default]) is x.name (or the default)
+            rec(ast.copy_location(ast.Attribute(
+                value=c.args[0], attr=c.args[1].value, ctx=ast.Load()), c))
+            if len(c.args) == 3:
+                rec(c.args[2])
             return
         if self.follow and self._follow_helper(c, nid, out, seen, env, depth):
             return
